@@ -64,6 +64,7 @@ def execute(sc):
     if sc.get('canonical') and h['results'] and all(r[0] == 'ok' for r in h['results']):
         sc2 = copy.deepcopy(sc)
         sc2['order_key'] = sc['canonical']
+        sc2['clock_offset_s'] = 86400 * 3 + 17      # the twin also runs at another (simulated) time of day
         for m in sc2.get('manifests', []):
             m['entries'] = _perm(m.get('entries', []), sc['canonical'])
         h2 = run_history(sc2, want_idempotence=False)
